@@ -289,12 +289,14 @@ for _fin, _fld in ((False, 'angle'), (True, 'object_height'), (True, 'angle')):
 
 
 # ---- bounded tier: whole lenses, geometric eps sequences -------------------------------------------------------------------
-def _quadratic(errs, epss, floor):
+def _quadratic(errs, epss, floor, per_eps=True):
     """errs[k] = discrepancy (already divided by the scale factor) at epss[k], decreasing eps.
     'at least quadratic': bounded by C eps^2 with C taken from the largest eps (slack 3), down to a rounding floor"""
     C = errs[0] / epss[0] ** 2
     for e, eps in zip(errs[1:], epss[1:]):
-        if not (e <= 3 * C * eps ** 2 + floor):
+        # the floor is an *absolute* rounding error of the traced quantity (1e-9 of the lens scale); the discrepancy is that
+        # quantity divided by eps (near-parallel rays on a paraboloid lose digits in the conic quadratic: ~3e-10 mm, unchanged tree)
+        if not (e <= 3 * C * eps ** 2 + (floor / eps if per_eps else floor)):
             return False
     return True
 
@@ -329,6 +331,37 @@ def _bounded(ct, tier, seed):
     for i in range(6 if tier == 'quick' else 60):
         st = rng.getstate()
         lenses.append(('random#%d' % i, lambda st=st, i=i: rt.random_lens(_rng(st), finite=(i % 3 == 0), asphere=(i % 2 == 0))))
+    def _newtonian():
+        # a paraboloid met by axis-parallel light: the a == 0 branch of the conic intersection
+        from optiland.optic import Optic
+        o = Optic()
+        o.add_surface(index=0, thickness=np.inf)
+        o.add_surface(index=1, radius=-200.0, conic=-1.0, thickness=-100.0, material='mirror', is_stop=True)
+        o.add_surface(index=2)
+        o.set_aperture('EPD', 20.0)
+        o.set_field_type('angle')
+        o.add_field(y=0.0)
+        o.add_field(y=0.5)
+        o.add_wavelength(0.55, is_primary=True)
+        return o
+
+    def _paraboloidal_lens():
+        from optiland.optic import Optic
+        from optiland.materials import IdealMaterial
+        o = Optic()
+        o.add_surface(index=0, thickness=np.inf)
+        o.add_surface(index=1, radius=40.0, conic=-1.0, thickness=5.0, material=IdealMaterial(1.6), is_stop=True)
+        o.add_surface(index=2, radius=-90.0, thickness=50.0)
+        o.add_surface(index=3)
+        o.set_aperture('EPD', 8.0)
+        o.set_field_type('angle')
+        o.add_field(y=0.0)
+        o.add_field(y=2.0)
+        o.add_wavelength(0.55, is_primary=True)
+        o.image_solve()
+        return o
+    lenses.append(('Newtonian paraboloid', _newtonian))
+    lenses.append(('singlet with a paraboloidal front', _paraboloidal_lens))
     epss = [3e-2, 3e-3, 3e-4]
     used = []
     for lname, mk in lenses:
@@ -389,7 +422,7 @@ def _bounded(ct, tier, seed):
         if any(not np.all(np.isfinite(m[0][1:])) for m in marg):
             continue                    # e.g. a central obscuration blocks the axial bundle: not C05's subject
         used.append(lname)
-        floor = 1e-9 * scale
+        floor = 1e-10 * scale          # absolute rounding error allowed in a traced height (divided by eps in the criterion)
         for k in range(1, n):
             cases += 1
             eh = [abs(m[0][k] / e - ya[k]) for m, e in zip(marg, epss)]
@@ -397,7 +430,7 @@ def _bounded(ct, tier, seed):
                  '%s surface %d: |y/eps - ya| = %s for eps = %s' % (lname, k, eh, epss), inputs)
             if k < n - 1:
                 es = [abs(m[1][k] / e - ua[k]) for m, e in zip(marg, epss)]
-                note(pre + 'marginal_type_slopes_converge_quadratically', _quadratic(es, epss, 1e-9) and es[0] <= 0.05 * (abs(ua[k]) + 1e-3),
+                note(pre + 'marginal_type_slopes_converge_quadratically', _quadratic(es, epss, 1e-11) and es[0] <= 0.05 * (abs(ua[k]) + 1e-3),
                      '%s surface %d: |tan/eps - ua| = %s' % (lname, k, es), inputs)
         # real axial focus -> paraxial back focal position
         k = n - 2
@@ -405,7 +438,7 @@ def _bounded(ct, tier, seed):
             zp = -ya[k] / ua[k]
             ez = [abs(-m[0][k] / m[1][k] + (m[2][k] - L.surface_group.positions[k, 0]) - zp) for m in marg]
             cases += 1
-            note(pre + 'axial_focus_tends_to_paraxial_focus', _quadratic(ez, epss, 1e-7 * (abs(zp) + 1)),
+            note(pre + 'axial_focus_tends_to_paraxial_focus', _quadratic(ez, epss, 1e-7 * (abs(zp) + 1), per_eps=False),
                  '%s: |z_focus(eps) - z_paraxial| = %s' % (lname, ez), inputs)
         if chief is not None and all(np.all(np.isfinite(c_[0][1:])) for c_ in chief):
             for k in range(1, n):
@@ -415,7 +448,7 @@ def _bounded(ct, tier, seed):
                      '%s surface %d: |y/tau - yb| = %s' % (lname, k, eh), inputs)
                 if k < n - 1:
                     es = [abs(c_[1][k] / tau(e) - ub[k]) for c_, e in zip(chief, epss)]
-                    note(pre + 'chief_type_slopes_converge_quadratically', _quadratic(es, epss, 1e-9) and es[0] <= 0.05 * (abs(ub[k]) + 1e-3),
+                    note(pre + 'chief_type_slopes_converge_quadratically', _quadratic(es, epss, 1e-11) and es[0] <= 0.05 * (abs(ub[k]) + 1e-3),
                          '%s surface %d: |tan/tau - ub| = %s' % (lname, k, es), inputs)
             # zero-pupil ray of every field -> centre of the stop
             for (Hx, Hy) in L.fields.get_field_coords():
